@@ -13,6 +13,12 @@ package mod_rewrite
 // setBackendAddr step (request line + Host line). A reference transformer written from the
 // docs, which only sees the request model, says what must come out.
 //
+// Query strings are judged in the backend view: RawQuery split on '&' only (';' is an ordinary
+// character of a pair), key = text before the first '=', percent-decoded ('+' = space) when it
+// can be and compared raw when it holds an invalid escape. The alphabet therefore holds, besides
+// plain / bare / encoded / repeated keys, the pairs bfe's url.ParseQuery drops or reads
+// differently (';' in the pair, invalid escapes in key or value, '+' in the key, '=v', '&&').
+//
 // Judged: exactly what the docs / the statement define. Where the docs are silent the case is
 // executed and counted "unjudged:<reason>" (HOST_SET_FROM_PATH_PREFIX resulting path and
 // one-segment paths, PATH_PREFIX_ADD with a prefix without trailing slash, PATH_PREFIX_TRIM at a
@@ -596,6 +602,10 @@ func c49refRewrite(s *c49ref, a c49act) {
 		var out []c49kv
 		for _, kv := range s.q {
 			if c49in(p, kv.k) {
+				if strings.Contains(kv.k+kv.v, ";") {
+					// a backend that also splits on ';' sees further, not excepted keys in this pair
+					s.unjudge('Q', "del-all-except:kept-pair-contains-semicolon")
+				}
 				out = append(out, kv)
 			} else {
 				s.deleted[kv.k] = true
@@ -745,14 +755,14 @@ var c49pairAtoms = []string{
 	"%zz=1",     // key that is not valid percent-encoding (compared raw)
 	"a+b=1",     // '+' in the key = key "a b"
 	"=v",        // '=' only pair: empty key
-	"j;x=1",     // ';' in the key text of another parameter
 }
 
-func c49queries(maxLen int) []string {
+// c49queriesLen: every sequence of minLen..maxLen atoms joined by '&'.
+func c49queriesLen(minLen, maxLen int) []string {
 	var out []string
 	var rec func(prefix []string)
 	rec = func(prefix []string) {
-		if len(prefix) > 0 {
+		if len(prefix) >= minLen && len(prefix) > 0 {
 			out = append(out, strings.Join(prefix, "&"))
 		}
 		if len(prefix) == maxLen {
@@ -765,6 +775,8 @@ func c49queries(maxLen int) []string {
 	rec(nil)
 	return out
 }
+
+func c49queries(maxLen int) []string { return c49queriesLen(1, maxLen) }
 
 var c49paths = []string{"/", "/a/b", "/a", "/ab/c", "/x.example.com/rest", "/a/%62"}
 
@@ -1019,33 +1031,48 @@ func (c *c49ctx) inherited(ru c49rule, q c49req) bool {
 	return false
 }
 
+func c49isQueryCmd(a c49act) bool { return strings.HasPrefix(a.Cmd, "QUERY_") }
+
 func (c *c49ctx) rewriteFamily() {
 	r := c.r
-	maxQ := r.Pick(2, 3)
-	queries := append([]string{""}, c49queries(maxQ)...)
+	// (1) every rule: all hosts/forms x all paths x queries of at most one pair
 	var reqs []c49req
 	for _, hf := range c49hosts {
 		for _, p := range c49paths {
-			for qi, qs := range queries {
-				reqs = append(reqs, c49req{abs: hf.abs, host: hf.host, path: p, query: qs, hasQ: qi > 0, product: c49product})
+			reqs = append(reqs, c49req{abs: hf.abs, host: hf.host, path: p, product: c49product})
+			for _, qs := range c49queries(1) {
+				reqs = append(reqs, c49req{abs: hf.abs, host: hf.host, path: p, query: qs, hasQ: true, product: c49product})
 			}
 		}
 	}
-	var deepReqs []c49req
-	if r.Thorough() {
-		for _, hf := range c49hosts[:2] {
-			for _, p := range c49paths[:2] {
-				for _, qs := range c49queries(maxQ + 1) {
-					deepReqs = append(deepReqs, c49req{abs: hf.abs, host: hf.host, path: p, query: qs, hasQ: true, product: c49product})
+	// (2) rules made of query actions only: longer queries on two hosts x two paths
+	//     single action: 2 pairs (quick) / 2..3 pairs, and 4 pairs on one host/path (thorough)
+	//     two actions:   none (quick) / 2 pairs (thorough)
+	mk := func(hosts []c49hostForm, paths []string, qs []string) []c49req {
+		var out []c49req
+		for _, hf := range hosts {
+			for _, p := range paths {
+				for _, q := range qs {
+					out = append(out, c49req{abs: hf.abs, host: hf.host, path: p, query: q, hasQ: true, product: c49product})
 				}
 			}
 		}
-		r.Set("rewrite_requests_query_actions", len(deepReqs))
+		return out
+	}
+	maxQ := r.Pick(2, 4)
+	qreqs1 := mk(c49hosts[:2], c49paths[:2], c49queriesLen(2, r.Pick(2, 3)))
+	var qreqs2 []c49req
+	if r.Thorough() {
+		qreqs1 = append(qreqs1, mk(c49hosts[:1], c49paths[1:2], c49queriesLen(4, 4))...)
+		qreqs2 = mk(c49hosts[:2], c49paths[:2], c49queriesLen(2, 2))
 	}
 	// a request of another product: no rule applies
 	other := []c49req{{host: "www.example.com", path: "/a/b", query: "k=v&j=w", hasQ: true, product: "other"}}
-	r.Set("rewrite_requests", len(reqs)+len(other))
+	r.Set("rewrite_requests_every_rule", len(reqs)+len(other))
+	r.Set("rewrite_requests_single_query_action", len(qreqs1))
+	r.Set("rewrite_requests_two_query_actions", len(qreqs2))
 	r.Set("rewrite_query_max_pairs", maxQ)
+	r.Set("rewrite_query_atoms", len(c49pairAtoms))
 
 	// acceptance of every documented command must have been attempted
 	seenCmd := map[string]bool{}
@@ -1080,7 +1107,7 @@ func (c *c49ctx) rewriteFamily() {
 	}
 	r.Set("rewrite_rules_single", nSingles)
 	r.Set("rewrite_rules_pairs", len(rules)-nSingles)
-	for ri, ru := range rules {
+	for _, ru := range rules {
 		if !c.next() {
 			continue
 		}
@@ -1091,24 +1118,27 @@ func (c *c49ctx) rewriteFamily() {
 		if m == nil {
 			continue
 		}
-		rs := reqs
-		if ri < nSingles && r.Thorough() && strings.HasPrefix(ru.acts[0].Cmd, "QUERY_") {
-			rs = deepReqs // query actions alone: one more pair
-		}
-		if ri >= nSingles {
-			// two-action rules: queries one pair shorter than for single actions
-			rs = rs[:0:0]
-			for _, q := range reqs {
-				if strings.Count(q.query, "&") < maxQ-1 {
-					rs = append(rs, q)
-				}
-			}
-		}
-		for _, q := range rs {
+		for _, q := range reqs {
 			c.rewriteCase(m, ru, q)
 		}
 		for _, q := range other {
 			c.rewriteCase(m, ru, q)
+		}
+		allQuery := true
+		for _, a := range ru.acts {
+			allQuery = allQuery && c49isQueryCmd(a)
+		}
+		if allQuery {
+			extra := qreqs1
+			if len(ru.acts) == 2 {
+				extra = qreqs2
+			}
+			for _, q := range extra {
+				if r.Expired("rewrite") {
+					return
+				}
+				c.rewriteCase(m, ru, q)
+			}
 		}
 	}
 }
